@@ -50,7 +50,8 @@ class World:
         for i, parents in enumerate(forest or ()):
             bases = tuple(self.classes[p] for p in parents if p < i) or (Exception,)
             try:
-                self.classes.append(type('X%d' % i, bases, {}))
+                # (distinct classes may well carry the same name: netlib.Timeout and dblib.Timeout, classes made by a factory)
+                self.classes.append(type('X%d' % (i % 3), bases, {}))
             except TypeError:
                 raise InvalidCase('inconsistent MRO')
 
